@@ -304,6 +304,18 @@ impl Runner {
                 if let Some(t) = t { t.update(&mut c, 1.0e9); }
                 format!("{} {}", b(c.a), b(c.b))
             }
+            "tpause" => {
+                // the App's clock: a paused `Time` reports zero-length frames (`Time::delta()`), whatever the wall clock does
+                let sim = self.sim.as_mut().unwrap();
+                if w[1] == "1" { sim.app.world.resource_mut::<Time>().pause(); } else { sim.app.world.resource_mut::<Time>().unpause(); }
+                self.observe(vec![])
+            }
+            "tspeed" => {
+                // relative speed of the App's clock (f64 bits): `Time::delta()` is the raw delta scaled by it
+                let sim = self.sim.as_mut().unwrap();
+                sim.app.world.resource_mut::<Time>().set_relative_speed_f64(f64::from_bits(w[1].parse().unwrap()));
+                self.observe(vec![])
+            }
             "evalat" => {
                 // the timeline in `slot` evaluated at a position given in nanoseconds, applied to a copy of the component
                 let t = self.clone_p(w[1]);
@@ -452,6 +464,9 @@ fn generate(seed: u64, n: usize, out: &mut dyn Write) {
         // ask for "the timeline evaluated at the position of one frame ago"
         let mut gpos: u64 = 0;
         let mut gen_enabled = enabled;
+        // one App in six plays with its clock: pauses, and relative speeds other than 1
+        let clocky = r.chance(1, 6);
+        let (mut paused, mut speed) = (false, 1.0f64);
         // "busy" blocks assign the selector key often, and mostly to the key assigned last (a re-assignment that
         // changes nothing but still takes the selector mutably) — in particular right after the frame that ended
         let busy = with_sel && r.chance(1, 3);
@@ -479,8 +494,14 @@ fn generate(seed: u64, n: usize, out: &mut dyn Write) {
                 3 => { let s = 1 + r.below(4); cur_slot = s.to_string(); writeln!(out, "settl {}", s).unwrap() }
                 _ => {}
             }
-            let delta = r.pick(&deltas);
-            writeln!(out, "frame {}", delta).unwrap();
+            if clocky && r.chance(1, 5) {
+                if r.chance(1, 2) { paused = !paused; writeln!(out, "tpause {}", paused as u8).unwrap(); }
+                else { speed = r.pick(&[0.5f64, 2.0, 0.25, 1.0, 1.5, 0.1, 3.0]); writeln!(out, "tspeed {}", speed.to_bits()).unwrap(); }
+            }
+            let raw = r.pick(&deltas);
+            writeln!(out, "frame {}", raw).unwrap();
+            // what `Time::delta()` reports for this frame (bevy_time 0.11 `update_with_instant`)
+            let delta: u64 = if paused { 0 } else if speed != 1.0 { Duration::from_nanos(raw).mul_f64(speed).as_nanos() as u64 } else { raw };
             if !with_sel && cur_slot != "-" {
                 writeln!(out, "terminal {}", cur_slot).unwrap();
                 writeln!(out, "evalat {} {}", cur_slot, gpos).unwrap();
